@@ -134,6 +134,19 @@ def decorate(ad, rng, index, p_style=0.35, p_anim=0.2, nonzero_offsets=True):
       ad["anim_styles"][k] = steps
   ad["rstyles"] = [some_styles(0.7) for _ in range(ad["nr"])]
   ad["ranim_styles"] = [some_anims(0.4) for _ in range(ad["nr"])]
+  if rng.random() < 0.08 and ad["nr"]:
+    # a property that applies to regions only, specified on content (where it means nothing and must not travel down),
+    # together with a property whose computed value DEPENDS on it further down: writing mode x emphasis "auto" / direction
+    spans = [k for k in range(ad["n"]) if ad["kind"][k] == "span"]
+    holders = [k for k in range(ad["n"]) if ad["kind"][k] in ("body", "div", "p", "span")]
+    if spans and holders:
+      h = rng.choice(holders)
+      below = [k for k in spans if k >= h] or spans
+      ad["styles"][h] = [x for x in ad["styles"][h] if x[0] != "WritingMode"] + [["WritingMode", rng.choice(index["WritingMode"])]]
+      tgt = rng.choice(below)
+      ad["styles"][tgt] = [x for x in ad["styles"][tgt] if x[0] != "TextEmphasis"] + [["TextEmphasis", index["TextEmphasis"][2]]]
+      r = rng.randrange(ad["nr"])
+      ad["rstyles"][r] = [x for x in ad["rstyles"][r] if x[0] != "WritingMode"] + [["WritingMode", rng.choice(index["WritingMode"])]]
   if ad.get("t0"):
     ad["anim_styles"][0] = []          # see docgen.random_doc: no steps on the elements that carry the shift
     ad["ranim_styles"] = [[] for _ in range(ad["nr"])]
